@@ -51,6 +51,24 @@ Theorem c12_exists_disjoint_pair_spec :
 Proof. exact exists_disjoint_pair_spec. Qed.
 Print Assumptions c12_exists_disjoint_pair_spec.
 
+(* the same for a whole batch: one route per request (at most cutoff links each, include lists met) such that any two
+   requests named together in a group, at positions i < j of the batch, get routes without a common link *)
+Theorem c12_exists_disjoint_assignment_spec :
+  forall n cutoff groups rqs,
+  exists_disjoint_assignment n cutoff groups rqs = true <->
+  exists ps,
+    Forall2 (fun r p => Route (ngraph n) (b_src r) (b_dst r) (b_inc r) p /\ (length p <= S cutoff)%nat) rqs ps /\
+    ForallOrdPairs (fun x y => conflict groups (fst x) (fst y) = true -> no_common_link n (snd x) (snd y))
+                   (combine (map b_id rqs) ps).
+Proof. exact exists_disjoint_assignment_spec. Qed.
+Print Assumptions c12_exists_disjoint_assignment_spec.
+
+Theorem c12_conflict_spec :
+  forall groups a b,
+  conflict groups a b = true <-> a <> b /\ exists grp, In grp groups /\ In a grp /\ In b grp.
+Proof. exact conflict_spec. Qed.
+Print Assumptions c12_conflict_spec.
+
 (* deduplicate_disjunctions (with Python's remove-while-iterating semantics): every declared set of requests is
    still declared, nothing is invented *)
 Theorem c12_dedup_groups_preserved :
@@ -59,6 +77,14 @@ Theorem c12_dedup_groups_preserved :
   incl (deduplicate l) l.
 Proof. exact dedup_groups_preserved. Qed.
 Print Assumptions c12_dedup_groups_preserved.
+
+(* ... but it does NOT remove every repetition: two groups with the same set of requests and different ids can both
+   survive (six groups a b a a b b leave 1, 3, 5; 1 and 5 are both b).  Replayed on gnpy: same output. *)
+Theorem c12_dedup_complete_refuted :
+  exists l d d', NoDup (map gid l) /\ In d (deduplicate l) /\ In d' (deduplicate l) /\
+                 gid d <> gid d' /\ set_eq (members d) (members d') = true.
+Proof. exact dedup_complete_refuted. Qed.
+Print Assumptions c12_dedup_complete_refuted.
 
 (* validator "every pair declared disjoint is still declared for the requests that now carry it" *)
 Theorem c12_covered_ok_reflects :
@@ -121,3 +147,11 @@ Example c12_ex_regressions :
   no_stale (final_ids (aggregate k3_rqs k3_groups)) (s_groups (aggregate k3_rqs k3_groups)) = true /\
   s_groups (aggregate k3_rqs k3_groups) = k3_groups.
 Proof. vm_compute. repeat split. Qed.
+(* batch: A->C, A->B, C->A on the two-line star; {0,1} is satisfiable, adding {0,2} (A->C vs C->A share A-C) is not *)
+Example c12_ex_assignment :
+  exists_disjoint_assignment f11_net 80 [[0; 1]] [(0, 0, 4, []); (1, 0, 2, []); (2, 4, 0, [])] = true /\
+  exists_disjoint_assignment f11_net 80 [[0; 1]; [2; 0]] [(0, 0, 4, []); (1, 0, 2, []); (2, 4, 0, [])] = false /\
+  exists_disjoint_assignment f11_net 80 [[2; 1]] [(0, 0, 4, []); (1, 0, 2, []); (2, 4, 0, [])] = true.
+Proof. vm_compute. repeat split. Qed.
+Example c12_ex_dedup_incomplete : map gid (deduplicate dd_witness) = [1; 3; 5].
+Proof. vm_compute. reflexivity. Qed.
